@@ -549,6 +549,7 @@ class SymNum:
             return True
         return bool(SymBool(self.t == z3.ToReal(z3.ToInt(self.t))))
 
+
     def __floor__(self):
         return self if self.is_int else SymNum(z3.ToInt(self.t))
 
@@ -753,6 +754,18 @@ def pow2_sym(k: SymNum, limit: int = 64):
 
 # --------------------------------------------------------------------------
 # complex numbers as pairs of reals
+
+
+
+class SymFloat(SymNum):
+    """A real taken out of an array('d').  `int(x) if x.is_integer() else x` (GlyphCoordinates)
+    only changes the Python TYPE of an integral value, never the number; under A-REAL the
+    int/float distinction of equal numbers is not modelled, so the test answers False without
+    forking (2 paths per coordinate read otherwise).  Arithmetic gives plain SymNum back."""
+    __slots__ = ()
+
+    def is_integer(self):
+        return False
 
 
 class SymComplex:
